@@ -21,9 +21,13 @@ def run(rep):
     control.parse_deductive(rep, control.PARSE_CLAUSE + control.PARSE_PROGRAM + ['visitSimplepredicate', 'visitTermpredicate'])
     control.text_deductive(rep)
     control.program_deductive(rep)
+    # "loading it makes exactly those predicates callable": the engine half (C08's contracts) - load_script_from_string installs
+    # every key the executed text defines, query looks the key up when the facts are exhausted (no memory of earlier lookups)
+    from . import enginep
+    enginep.engine_deductive(rep, ['engine.YP.query', 'engine.YP.load_script_from_string'], heap_lemmas=False)
     q = rep.tier == 'quick'
     fw.standin(rep, 's_c11.py', ['run', rep.seed, 900 if q else 5000],
-               'boundary corpus + generated programs: accepted output compiles, loads, defines exactly the clause-head keys as generator functions',
+               'boundary corpus + generated programs: accepted output compiles, loads, defines exactly the clause-head keys as generator functions, which a query reaches also when the engine was asked for them before the load',
                'numeral spellings, reserved-looking variable names, failing bodies, long conjunctions, deep nesting of control constructs and terms')
     fw.standin(rep, 'recog.py', ['run', 'accept', rep.seed + 3, 5000 if q else 40000],
                'accepted programs define exactly the clause heads (def set == clause keys of an independent reader)', 'valid programs x corruptions')
